@@ -431,12 +431,26 @@ Section Sim.
       | a :: racc' =>
           match parse_counted is_ws x s with
           | Some (lo, hi, r) =>
-              if lazy_follows r then None else p_seq f x top r (RRep a lo hi :: racc') ralts
+              if lazy_follows (bump x r) then None else p_seq f x top r (RRep a lo hi :: racc') ralts
           | None => None
           end
       | [] => None
       end.
   Proof. intros f x top s racc ralts Hb. cbn [Parse.p_seq]. rewrite Hb. reflexivity. Qed.
+
+  (* after a counted repetition the (?x) parser skips layout before looking for a lazy '?': the first
+     thing it can see in a rendering is the head of a rendered token, which is a '?' only if the
+     source had one there *)
+  Lemma XS_lazy_bump : forall m1 m2 s s', XS m1 m2 s s' -> lazy_follows s = false ->
+    lazy_follows (bump true s') = false.
+  Proof.
+    intros m1 m2 s s' H Hl.
+    destruct (XS_hd is_ws Hws _ _ _ _ H) as [(_ & _ & ->)|(m & t & t' & s1 & s1' & -> & -> & Ht & _)];
+      [reflexivity|].
+    destruct (tok_hd _ _ _ _ Ht) as (y & t0 & y' & t0' & -> & -> & _ & Hy').
+    cbn [app lazy_follows] in Hl |- *.
+    destruct Hy' as [->|[-> _]]; [exact Hl|reflexivity].
+  Qed.
 
   Lemma ws_not_special : forall y, mem std_whitespace y = true \/ y = 35 ->
     mem_cp y loop_special = false.
@@ -525,8 +539,9 @@ Section Sim.
       rewrite p_seq_brace_x in Hp |- * by (try reflexivity; apply (bump_solid is_ws Hws); solid_c).
       destruct racc as [|a1 racc]; [discriminate Hp|].
       rewrite parse_counted_n_x in Hp |- *.
+      cbn [Parse.bump] in Hp.
       destruct (lazy_follows s1) eqn:El; [discriminate Hp|].
-      rewrite (XS_lazy _ _ _ _ Hs1 El).
+      rewrite (XS_lazy_bump _ _ _ _ Hs1 El).
       eapply IH; [|exact Hs1|exact Hp]. reflexivity.
     - (* {m,n} *)
       cbn [app] in Hp |- *. rewrite <- !app_assoc in Hp |- *. cbn [app] in Hp |- *.
@@ -536,8 +551,9 @@ Section Sim.
       rewrite parse_counted_mn_x.
       destruct (parse_counted_mn_uniform a0 b0) as [o Ho]. rewrite Ho in Hp |- *.
       destruct o as [[lo hi]|]; [|discriminate Hp].
+      cbn [Parse.bump] in Hp.
       destruct (lazy_follows s1) eqn:El; [discriminate Hp|].
-      rewrite (XS_lazy _ _ _ _ Hs1 El).
+      rewrite (XS_lazy_bump _ _ _ _ Hs1 El).
       eapply IH; [|exact Hs1|exact Hp]. reflexivity.
     - (* bracket class *)
       cbn [app] in Hp |- *.
